@@ -180,7 +180,9 @@ class _RunnerIterator(iter_utils.MultiplexIterator[_ValueT]):
         ignore_error=self._ignore_error,
         with_result=self._with_result,
         with_agg_state=self._with_agg,
-        state=state.agg_state,
+        # The restored iterator updates its aggregation states in place: the
+        # state it is restored from has to stay usable for another restore.
+        state=copy.deepcopy(state.agg_state),
     )
 
   @property
